@@ -935,10 +935,9 @@ fn request(f: &PFont, g: &PGlyph, ppem: u32, mode: Mode) -> String {
     v.push(g.ends.len() as i64);
     v.extend(g.ends.iter().map(|e| *e as i64));
     v.push(N_CVT as i64);
-    // cvt values as both libraries set them up: (units * 64) * (scale >> 6) in 16.16
+    // cvt in font units: each model scales it the way its code base does at size setup
     for i in 0..N_CVT {
-        let u = *f.cvt.get(i).unwrap_or(&0) as i64;
-        v.push(unsafe { FT_MulFix((u * 64) as c_long, (scale >> 6) as c_long) } as i64);
+        v.push(*f.cvt.get(i).unwrap_or(&0) as i64);
     }
     v.push(g.ops.len() as i64);
     for (o, imm) in &g.ops {
@@ -1068,6 +1067,46 @@ fn directed(bc: bool) -> Vec<PGlyph> {
     v
 }
 
+/// SCANCTRL in the prep: the scan-control flag it leaves.  FreeType: `TT_Load_Glyph` sets
+/// `FT_OUTLINE_IGNORE_DROPOUTS` (0x8) on the outline iff `GS.scan_control` is false; skrifa: the retained
+/// graphics state of the hinting instance (hook `verif_state`).  An empty glyph program is used so that the
+/// flag is the prep's.
+fn scan_control(s: &mut Session, lib: &freetype::Library, f: &PFont, ppem: u32, mode: Mode) {
+    let probe = PGlyph { pts: vec![(0, 0, true), (100, 0, true), (50, 80, true)], ends: vec![2], ops: vec![], label: String::new(), cvt_used: false };
+    let pf = PFont { upem: f.upem, cvt: f.cvt.clone(), glyphs: vec![probe.clone()], prep: f.prep.clone() };
+    let data = build(&pf);
+    let req = request(&pf, &probe, ppem, mode);
+    let ft: Option<bool> = (|| {
+        use freetype::face::LoadFlag;
+        let face = lib.new_memory_face2(data.clone(), 0).ok()?;
+        face.set_pixel_sizes(ppem, ppem).ok()?;
+        face.load_glyph(1, LoadFlag::NO_BITMAP | LoadFlag::NO_AUTOHINT | mode.freetype()).ok()?;
+        Some(face.glyph().raw().outline.flags & 0x8 == 0)
+    })();
+    let sk: Option<bool> = (|| {
+        let font = FontRef::new(&data).ok()?;
+        let outlines = font.outline_glyphs();
+        let h = HintingInstance::new(&outlines, Size::new(ppem as f32), LocationRef::default(), HintingOptions { engine: Engine::Interpreter, target: mode.skrifa() }).ok()?;
+        let st = h.verif_state();
+        if st.contains("scan_control: true") {
+            Some(true)
+        } else if st.contains("scan_control: false") {
+            Some(false)
+        } else {
+            None
+        }
+    })();
+    let show = |v: Option<bool>| match v {
+        Some(true) => "1".to_string(),
+        Some(false) => "0".to_string(),
+        None => "unavailable".to_string(),
+    };
+    s.case("ft.scan", format!("ft.scan {req}"), show(ft));
+    s.case("sk.scan", format!("sk.scan {req}"), show(sk));
+    s.count(&format!("prog:scan-control:{}", show(ft)));
+    s.oracle("prog:scan_control==FreeType", ft == sk && ft.is_some(), || format!("prep={:?} ppem={ppem} mode={mode:?}", f.prep), || format!("skrifa {sk:?} freetype {ft:?}"));
+}
+
 pub fn run(cfg: &Config, s: &mut Session) {
     let mut rng = Rng::new(cfg.seed ^ 0x9406);
     let lib = freetype::Library::init().unwrap();
@@ -1108,6 +1147,22 @@ pub fn run(cfg: &Config, s: &mut Session) {
             }
         }
     }
+    // SCANCTRL threshold logic: every flag bit against thresholds at ppem - 1, ppem, ppem + 1, 0 and 0xFF
+    for (upem, ppem) in [(1024u16, 16i32), (1000, 13)] {
+        for flags in [0x000, 0x100, 0x800, 0x900, 0x200, 0x400, 0x1000, 0x2000, 0x3F00] {
+            for thr in [0, 1, ppem - 1, ppem, ppem + 1, 0xFE, 0xFF] {
+                for pre in [None, Some(0xFF), Some(0)] {
+                    let mut prep: Vec<AOp> = vec![];
+                    if let Some(p0) = pre {
+                        prep.extend([(PUSH, p0), (SCANCTRL as u16, 0)]);
+                    }
+                    prep.extend([(PUSH, flags | thr), (SCANCTRL as u16, 0)]);
+                    let f = PFont { upem, cvt: cvt.clone(), glyphs: vec![], prep };
+                    scan_control(s, &lib, &f, ppem as u32, Mode::Mono);
+                }
+            }
+        }
+    }
     // fonts with a control value program: the retained graphics state, the cvt, the twilight zone and the
     // backward-compatibility switch (INSTCTRL selector 3) the glyph programs start from
     let n_fonts = if cfg.thorough() { 400 } else { 60 };
@@ -1124,5 +1179,6 @@ pub fn run(cfg: &Config, s: &mut Session) {
         let f = PFont { upem, cvt: cvt.clone(), glyphs, prep };
         let mode = if !bc { Mode::Mono } else { *rng.pick(&[Mode::Normal, Mode::Normal, Mode::Light, Mode::Lcd, Mode::VLcd]) };
         run_font(cfg, s, &lib, &f, &format!("c03_prog_prep_{i}"), ppem, mode, &mut recorded);
+        scan_control(s, &lib, &f, ppem, mode);
     }
 }
